@@ -58,12 +58,14 @@ func (r *Runner) Restart() {
 // Start is non-blockig and runs in a go routine. The provided context can be used to manage the
 // lifecycle. Stop() will also terminate the runner.
 func (r *Runner) Start(ctx context.Context) {
-	defer close(r.stopped)
-
 	schedulesCtx, schedulesCtxCancel := context.WithCancel(ctx)
 	r.cancel = schedulesCtxCancel
 
 	go func() {
+		// stopped is closed when the runner goroutine has exited, so that Stop only
+		// returns once the function is no longer executing and cannot be invoked again
+		defer close(r.stopped)
+
 		for {
 			select {
 			case <-r.restart:
